@@ -18,6 +18,7 @@ IR (hashable tuples):
  ("sub", base, idx) ("slice", lo, hi, step)
  ("copy", L) ("removeone", L, x) ("appended", L, x)
  ("phi", cond, a, b) ("carried", name, loop) ("acc", name) ("unknown", text)
+ ("lambda", (("bv", param, uid), ...), body)      a lambda / a nested single-return def used as a value
 """
 from __future__ import annotations
 
@@ -341,7 +342,23 @@ class Flow:
         return ("slice", self.ev(n.lower), self.ev(n.upper), self.ev(n.step))
 
     def e_Lambda(self, n):
-        return ("unknown", "lambda")
+        return self._closure(n.args, n.body)
+
+    def _closure(self, a, body):
+        """A function VALUE (a lambda, or a nested `def f(p): return e` -- the same thing with a name): ("lambda", (param, ...), body)
+        with the parameters as bound variables; free names have the value they have where the function is created."""
+        if a.vararg or a.kwarg or a.kwonlyargs or a.posonlyargs:
+            return ("unknown", "lambda")
+        saved = dict(self.env)
+        uid = next(self._uid)
+        params = []
+        for p_ in a.args:
+            bv = ("bv", p_.arg, uid)
+            self.env[p_.arg] = bv
+            params.append(bv)
+        v = self.ev(body)
+        self.env = saved
+        return ("lambda", tuple(params), v)
 
     def e_NamedExpr(self, n):
         v = self.ev(n.value)
@@ -838,6 +855,11 @@ class Flow:
         self.block(s.finalbody)
 
     def s_FunctionDef(self, s):
+        body = [b for b in s.body if not (isinstance(b, ast.Expr) and isinstance(b.value, ast.Constant))]
+        if not s.decorator_list and len(body) == 1 and isinstance(body[0], ast.Return) and body[0].value is not None:
+            # `def f(p): return e` used as a value (sort key, callback) is `lambda p: e`
+            self.env[s.name] = self._closure(s.args, body[0].value)
+            return
         self.env[s.name] = ("localfunc", s.name)
 
     def s_ClassDef(self, s):
@@ -973,6 +995,8 @@ def show(v, depth=0) -> str:
             return f"({show(v[1])} ++ [{show(v[2])}])"
         if k == "phi":
             return f"phi({show(v[1])}; {show(v[2])}; {show(v[3])})"
+        if k == "lambda":
+            return f"(lambda {', '.join(p_[1] for p_ in v[1])}: {show(v[2])})"
         if k == "carried":
             return f"carried:{v[1]}"
         if k == "acc":
